@@ -50,35 +50,26 @@ Theorem C16_registered_is_latest :
 Proof. exact registered_is_latest. Qed.
 Print Assumptions C16_registered_is_latest.
 
-(* MAIN, over all histories: outside the finding class C16-a every event in the trace is preceded by the
-   descriptor it references, and that descriptor is the latest one emitted for its stream (or the engine's
-   interruptions descriptor).  no_name0: no user stream is called "interruptions". *)
+(* MAIN, over ALL histories: every event in the trace is preceded by the descriptor it references, and that
+   descriptor is the latest one emitted for its stream (or the engine's interruptions descriptor) - so after a
+   configure re-describes a stream, every later event of it, bundled or from a monitor, references the new
+   descriptor.  no_name0: no user stream is called "interruptions".
+   (C16-a, repaired by fixes/C16-a.diff: monitor callbacks used to keep the compose_event of the descriptor that
+   existed when monitoring started; they now use the descriptor registered for their stream at call time.) *)
 Theorem C16_events_follow_latest_descriptor :
   forall E st ri h,
-  no_name0 h -> finding_C16_a E (init st ri) [] h = false ->
+  no_name0 h ->
   events_follow_descriptors (trace E (init st ri) h).
 Proof. exact events_follow_descriptors_main. Qed.
 Print Assumptions C16_events_follow_latest_descriptor.
 
-(* the same statement without the finding hypothesis *)
-Definition C16_full : Prop :=
-  forall E st ri h, no_name0 h -> events_follow_descriptors (trace E (init st ri) h).
+(* regression: the history that violated the statement before the repair *)
+Example C16_a_regression :
+  events_follow_descriptors_b [] (trace (env_of c16a_devs) (init false false) c16a_hist) = true /\
+  length (trace (env_of c16a_devs) (init false false) c16a_hist) = 4.
+Proof. exact c16a_regression. Qed.
 
-(* C16-a: the unchanged code violates it - a monitor callback keeps the compose_event of the descriptor that
-   existed when monitoring started; after configure re-describes the stream its events still reference the old
-   descriptor.  Witness: open_run; monitor o1 as stream 5; configure o1 := 42; the monitored signal fires. *)
-Theorem C16_a_refuted :
-  exists E st ri h, no_name0 h /\ finding_C16_a E (init st ri) [] h = true /\
-                    ~ events_follow_descriptors (trace E (init st ri) h).
-Proof. exact c16a_refuted_main. Qed.
-Print Assumptions C16_a_refuted.
-
-Example C16_full_fails : ~ C16_full.
-Proof.
-  intros H. destruct C16_a_refuted as (E & st & ri & h & Hn & _ & Hnot). apply Hnot. apply H. exact Hn.
-Qed.
-
-(* ---- non-vacuity: a history with two streams sharing a configured device, outside the finding class *)
+(* ---- non-vacuity: a history with a monitored and a bundled stream sharing a configured device *)
 Definition ex16_devs : dict devspec :=
   [(1, mkDev true true true false false false false false false [(1, ExtNone)] []);
    (2, mkDev true false false false false false false false false [(2, ExtNone)] [])].
@@ -88,9 +79,8 @@ Definition ex16_hist : list op :=
    OConfigure 1 42%Z;
    OCreate (Some 1) []; ORead 1 [(1, 7%Z)] []; ORead 2 [(2, 8%Z)] []; OSave].
 Example C16_main_nonvacuous :
-  no_name0 ex16_hist /\ finding_C16_a (env_of ex16_devs) (init false false) [] ex16_hist = false /\
-  length (trace (env_of ex16_devs) (init false false) ex16_hist) = 8.
-Proof. split; [reflexivity|]. split; vm_compute; reflexivity. Qed.
+  no_name0 ex16_hist /\ length (trace (env_of ex16_devs) (init false false) ex16_hist) = 8.
+Proof. split; [reflexivity|]. vm_compute; reflexivity. Qed.
 Example C16_configure_nonvacuous :
   exists s tr s' docs, reachable (env_of ex16_devs) s tr /\
     step (env_of ex16_devs) s (OConfigure 1 42%Z) = (s', docs, ROk) /\ length docs = 2.
